@@ -29,7 +29,7 @@ RULE = (
 )
 ASSUMPTIONS = [
     "a coalescent time exactly equal to a grid point or to a sampling time is never generated (value of N at a jump / order of simultaneous events is a convention)",
-    "growth rates |g| >= 1e-3 (g = 0 is documented as not handled: TODO in the source)",
+    "growth rates with |g| * tree height >= 1e-3 on time scales from 1e-3 to 1e6 (g = 0 is documented as not handled: TODO in the source); the oracle's round-off bound for (e^{g b} - e^{g a})/(theta g) is added to the tolerance",
     "adjacent thetas of the piecewise-linear model are exactly equal or differ by >= 1% (the closed form log-ratio/difference is ill-conditioned in between); the oracle's round-off bound is added to the tolerance",
     "PiecewiseExponentialCoalescentGridModel documents no N(t); it is only required to evaluate (sub-check pexp_evaluates)",
 ]
@@ -44,6 +44,7 @@ CLS = {"constant": "ConstantCoalescentModel", "exponential": "ExponentialCoalesc
 def genealogy(draw, nmin=2, nmax=50):
     n = draw(st.integers(nmin, nmax))
     mode = draw(st.sampled_from(["iso", "grid", "grid", "cont"]))
+    tscale = draw(st.sampled_from([1.0, 1.0, 1.0, 1e-3, 1e3, 1e6]))  # years, generations, ...
     if mode == "iso":
         s = [0.0] * n
     elif mode == "grid":
@@ -63,16 +64,19 @@ def genealogy(draw, nmin=2, nmax=50):
             t = t * (1 + 1e-7) + 1e-9
         c.append(t)
         prev = t
+    if tscale != 1.0:
+        s = [x * tscale for x in s]
+        c = [x * tscale for x in c]
     return {"s": s, "c": c}
 
 
-def draw_thetas(draw, m, equalish):
+def draw_thetas(draw, m, equalish, tsc=1.0):
     out = []
     for i in range(m):
         if out and equalish and draw(st.integers(0, 2)) == 0:
             out.append(out[-1])
         else:
-            v = draw(logu(1e-2, 1e3))
+            v = draw(logu(1e-2, 1e3)) * tsc
             if out and abs(v / out[-1] - 1) < 0.01:
                 v = out[-1] * 1.5
             out.append(v)
@@ -85,19 +89,20 @@ def demo_params(draw, model, g, allow_cutoff=True):
     n = len(s)
     root = max(c)
     p = {"model": model}
+    tsc = max(root / 10.0, 1e-6)  # population sizes on the time scale of the tree
     if model == "constant":
-        p["theta"] = [draw(logu(1e-2, 1e3))]
+        p["theta"] = [draw(logu(1e-2, 1e3)) * tsc]
     elif model == "exponential":
-        p["theta"] = [draw(logu(1e-2, 1e3))]
+        p["theta"] = [draw(logu(1e-2, 1e3)) * tsc]
         sign = draw(st.sampled_from([-1.0, 1.0]))
-        # keep exp(g t) within range: |g| * root <= 30
-        gmax = min(5.0, 30.0 / root)
-        p["growth"] = [sign * draw(logu(1e-3, max(gmax, 2e-3)))]
+        # growth is drawn relative to the time scale of the tree: |g| * root in [1e-3, 30] keeps exp(g t) in range
+        # and covers tiny absolute growth rates on long time scales (years, generations)
+        p["growth"] = [sign * draw(logu(1e-3, 30.0)) / root]
     elif model == "skyride":
-        p["theta"] = draw_thetas(draw, n - 1, draw(st.booleans()))
+        p["theta"] = draw_thetas(draw, n - 1, draw(st.booleans()), tsc)
     else:
         m = draw(st.integers(2, 8))
-        p["theta"] = draw_thetas(draw, m, draw(st.booleans()))
+        p["theta"] = draw_thetas(draw, m, draw(st.booleans()), tsc)
         if allow_cutoff and draw(st.integers(0, 3)) == 0:
             p["cutoff"] = root * draw(st.sampled_from([0.3, 0.8, 1.013, 1.7])) * draw(fl(0.9, 1.1))
             grid = np.linspace(0, p["cutoff"], m)[1:].tolist()
@@ -269,6 +274,18 @@ def tol_for(ref, err):
     return 1e-9 * max(1.0, abs(ref)) + 4.0 * err
 
 
+def effective_genealogy(c):
+    """sampling times as the model sees them: with calendar dates they are max(date) - date in double
+    arithmetic, which differs from the generated value by a rounding error of the size of an ulp of the year"""
+    g = c["g"]
+    if c.get("route") == "tree" and c.get("calendar") and max(g["s"]) > 0:
+        top = 1990.0 + max(g["s"])
+        dates = [top - x for x in g["s"]]
+        mx = max(dates)
+        return {"s": [mx - d for d in dates], "c": g["c"]}
+    return g
+
+
 def classify(c):
     g, p = c["g"], c["p"]
     n = len(g["s"])
@@ -295,7 +312,7 @@ def classify(c):
 def body(c):
     nt, key, labels, tags = classify(c)
     res = Res(nontrivial=nt, key=key, labels=labels, tags=tags)
-    g, p = c["g"], c["p"]
+    g, p = effective_genealogy(c), c["p"]
     model, dic = evaluate(c)
     if c.get("batch") and c["route"] == "times":
         # batched thetas with unbatched heights: an unsupported shape combination may raise (C10's subject)
